@@ -157,6 +157,15 @@ Crash ==
     /\ hist' = H([a |-> "crash", k |-> "", r |-> "", n |-> 0])
     /\ UNCHANGED <<height, txk, wmH, wmD, dwmH, dwmD, accH, accD, markH, markD, fileH, fileD, incl, dincl, finalLog, pcH, pcD, pcI, remH, remD, replies, refused>>
 
+\* an orderly stop: the loops are joined, the caches (DA-included marks) are written to disk
+\* (it draws on the same budget as crashes, so that exhaustive runs stay bounded)
+CleanStop ==
+    /\ up /\ crashes < MaxCrashes
+    /\ crashes' = crashes + 1 /\ up' = FALSE
+    /\ fileH' = markH /\ fileD' = markD
+    /\ hist' = H([a |-> "stop", k |-> "", r |-> "", n |-> 0])
+    /\ UNCHANGED <<height, txk, wmH, wmD, dwmH, dwmD, accH, accD, markH, markD, incl, dincl, finalLog, pcH, pcD, pcI, remH, remD, replies, refused>>
+
 Restart ==
     /\ ~up /\ up' = TRUE
     /\ wmH' = dwmH /\ wmD' = dwmD /\ incl' = dincl
@@ -170,7 +179,7 @@ Next ==
     \/ \E k \in TxKinds \cup {"none"} : Produce(k)
     \/ Refuse \/ SnapH \/ GiveUpH \/ SnapD \/ GiveUpD
     \/ \E n \in 0 .. 3, ack \in BOOLEAN : AttemptH(n, ack) \/ AttemptD(n, ack)
-    \/ Finalize \/ Persist \/ Publish \/ Crash \/ Restart
+    \/ Finalize \/ Persist \/ Publish \/ Crash \/ CleanStop \/ Restart
 
 Spec == Init /\ [][Next]_vars
 
